@@ -24,6 +24,18 @@ def run(rep, tier, props=("C10",)):
     rnd = common.rng("L1")
     sz = sizes(tier)
     U = typegen.universe(rnd, sz["d1"], sz["d2"])
+    # shapes where a relation may be tempted to distribute a constructor over a union (a tuple / struct /
+    # function / array / cell with a union component next to the union of the componentwise variants),
+    # structs sharing only some field names, functions differing only in a void result
+    U += ["(tup (multi int float) float)", "(multi (tup int int) (tup float float))", "(tup (multi int float) (multi int float))",
+          "(multi (tup int float) (tup float int))", "(tup int float)", "(tup float float)", "(tup int int)",
+          "(arr (multi int float))", "(multi (arr int) (arr float))", "(mut (multi int float))", "(multi (mut int) (mut float))",
+          "(fun ((multi int float)) int)", "(multi (fun (int) int) (fun (float) int))", "(fun (int) (multi int float))",
+          "(multi (fun (int) int) (fun (int) float))", "(fun () void)", "(fun () int)", "(fun () any)", "(fun (int) void)",
+          "(struct (a int) (c int))", "(struct (a int) (b int))", "(struct (a int) (x int))", "(struct (y int) (z int))",
+          "(struct (a string))", "(struct (a (multi int float)))", "(multi (struct (a int)) (struct (a float)))",
+          "(struct (a int) (b int) (c int))"]
+    U = list(dict.fromkeys(U))
     n = len(U)
     rep.count("L1.universe", n)
     for t in U[:3] + U[-3:]:
